@@ -46,6 +46,8 @@ func pessSteps() []step {
 		lk("lock-exist", "a", txnh.Op{Kind: "lock", CheckExist: true}),
 		lk("lock-onlyifexists", "b", txnh.Op{Kind: "lockrv", OnlyExist: true}),
 		step{"lock(a,b)", []txnh.Op{{Kind: "lock", Keys: []string{"a", "b"}}}},
+		step{"lock-wait10ms(a)", []txnh.Op{{Kind: "lock", Key: "a", WaitMS: 10}}},
+		step{"lock-wait10ms(a,b)", []txnh.Op{{Kind: "lock", Keys: []string{"a", "b"}, WaitMS: 10}}},
 		step{"lock-noretry(a,b)", []txnh.Op{{Kind: "lock", Keys: []string{"a", "b"}, NoRetry: true}}},
 		step{"insert(b);lock(a,b)", []txnh.Op{op("insert", "b"), {Kind: "lock", Keys: []string{"a", "b"}}}},
 		step{"insert(b);lock(b)", []txnh.Op{op("insert", "b"), op("lock", "b")}},
